@@ -27,6 +27,7 @@ PROFILES = {
         "reorder": 2, "rename": 6, "clone": 3, "merge": 8, "set_link": 5, "set_include": 3, "save": 2, "merge_again": 5, "merge_self": 2, "finalize": 3, "linked_copy": 5, "clean": 3, "new_id": 4,
         "set_values": 8, "set_dtype": 6, "v_append": 5, "v_extend": 5, "v_insert": 4,
         "v_setitem": 4, "v_remove": 2, "set_card": 8, "set_attr": 3, "get_values": 1,
+        "add_raising_rule": 1,
     }, fault_share=0.6),
 }
 MONITORS = [mon_atomic]
